@@ -269,6 +269,7 @@ let () =
            if n > 0 then incr nontrivial;
            if not (holds_C14 dr ll lu) then ora "C14" "drained_plus_lines_differs_from_unlimited";
            if coll = 0 then ora "C14" "text_collector_differs"
+           else if coll = 2 then kf "C14" "KF-C14-1"
        | "S" | "PANIC" -> (
            let post = if tag = "S" then Some (vt_of_line l) else None in
            (match (!pre, !pending_op) with
@@ -360,12 +361,10 @@ let () =
                          (Oracles_glue.step_oracles obump v f p);
                        (* KF-C04-1: auto-wrap on a bottom margin above the last row loses the soft-wrap mark *)
                        if Model.kf1_C04 v f && Model.wrapmark_lost v f p then kf "C04" "KF-C04-1";
+                       if Model.kf1_C07 v f && Model.wrapmark_kept v f p then kf "C07" "KF-C07-1";
                        (* KF-C17-1: a soft reset discards the saved cursor of the shown screen (DEC STD 070), although the
                           property's quantifier lists "soft reset" among the inputs a save / restore round trip survives *)
-                       (match f with
-                        | Decstr when not (Model.ctx_eqb v.vterm.sctx Model.default_ctx) && Model.ctx_eqb p.vterm.sctx Model.default_ctx ->
-                            kf "C17" "KF-C17-1"
-                        | _ -> ())
+                       if Model.kf1_C17 v f && Model.ctx_eqb p.vterm.sctx Model.default_ctx then kf "C17" "KF-C17-1"
                    | None ->
                        List.iter
                          (fun (prop, what) ->
